@@ -65,6 +65,14 @@ def cases(tier, seed):
         rate, bs = (2, (4, 4, -1)) if 'reblock' in stages or rng.random() < 0.3 else rng.choice([(4, (4, 4, -1)), (8, (4, 4, -1)), (1, (4, 4, -1))])
         out.append({'id': 'chain:%d:%s' % (i, '-'.join(stages)), 'kind': 'chain', 'src': src, 'rate': rate, 'bs': list(bs), 'stages': stages,
                     'cseed': rng.randrange(1 << 30), 'detection': rng.choice(['heuristic', 'thorough']), 'cost': 4})
+    # chains starting from files written under older conventions (the derived writers must keep THEIR source's conventions)
+    for i, ver in enumerate([[0, 2, 1], [0, 1, 9], [0, 2, 2], [0, 1, 6], [0, 2, 9], [0, 2, 1]] * (1 if tier == 'quick' else 6)):
+        rate, bs = [(2, (4, 4, 1024)), (4, (4, 4, 512))][i % 2]
+        shape = (rng.choice([5, 9, 12]), rng.choice([7, 13, 16]), rng.choice([9, 30]))
+        f = files.wspec_desc(rng, shape, rate, bs, version=ver, narr=rng.choice([2, 3, 5]), il=[rng.choice([1, 10]), rng.choice([1, 2])], xl=[5, 1])
+        stages = [['crop'], ['reblock'], ['crop', 'reblock'], ['reblock', 'crop']][i % 4] if rate == 2 else ['crop']
+        out.append({'id': 'chain-legacy:%d:%s:%s' % (i, '.'.join(map(str, ver)), '-'.join(stages)), 'kind': 'chain', 'file': f, 'rate': rate, 'bs': list(bs),
+                    'stages': stages, 'cseed': rng.randrange(1 << 30), 'cost': 3})
     # version space: exhaustive, sharded by (major, minor range)
     nshard = 32
     per = 1024 // (nshard // 4)
@@ -175,13 +183,17 @@ def run_chain(case, ctx):
     from seismic_zfp.cropping import SgzCropper
     rng = random.Random(case['cseed'])
     scratch = ctx['scratch']
-    src = conv.build_source(case['src'], scratch)
     rate, bs = case['rate'], tuple(case['bs'])
-    cur = scratch.file('s0.sgz')
-    conv.convert_segy(src['path'], cur, rate, bs, detection=case['detection'])
-    truth = truth_for(src, rate, bs, case['detection'], '3d')
-    truth['bs'] = conv.resolve_bs(rate, bs)
-    bad, sp = conform.check(cur, truth, tag='chain-stage0-convert:')
+    if 'file' in case:
+        cur, _ = files.build(case['file'], scratch, name='s0.sgz')
+        bad, sp = conform.check(cur, {'shape': tuple(case['file']['shape']), 'rate': rate, 'bs': bs}, tag='chain-stage0-wspec:')
+    else:
+        src = conv.build_source(case['src'], scratch)
+        cur = scratch.file('s0.sgz')
+        conv.convert_segy(src['path'], cur, rate, bs, detection=case['detection'])
+        truth = truth_for(src, rate, bs, case['detection'], '3d')
+        truth['bs'] = conv.resolve_bs(rate, bs)
+        bad, sp = conform.check(cur, truth, tag='chain-stage0-convert:')
     n, strata = 1, set()
     for si, st in enumerate(case['stages']):
         if bad or sp is None:
@@ -197,7 +209,7 @@ def run_chain(case, ctx):
                 with SgzConverter(cur) as c:
                     c.convert_to_adv_sgz(nxt)
             t = {'shape': sp.shape, 'rate': 2, 'bs': (64, 64, 4), 'ilines': sp.ilines(), 'xlines': sp.xlines(), 'samples': sp.samples(),
-                 'ntraces': sp.ntr, 'data_image': V, 'fields': F, 'file_header': sp.file_header, 'hash': sp.hash}
+                 'ntraces': sp.ntr, 'data_image': V, 'fields': F, 'file_header': sp.file_header, 'hash': sp.hash, 'version': sp.version}
         elif st == 'crop':
             if tuple(sp.bs[:2]) != (4, 4):
                 continue
@@ -216,7 +228,7 @@ def run_chain(case, ctx):
             fh[3220:3222] = int(W[2][1] - W[2][0]).to_bytes(2, 'big')
             t = {'shape': tuple(b - a for a, b in W), 'rate': sp.rate, 'bs': sp.bs, 'ilines': sp.ilines()[sl[0]], 'xlines': sp.xlines()[sl[1]],
                  'samples': sp.samples()[sl[2]], 'ntraces': (W[0][1] - W[0][0]) * (W[1][1] - W[1][0]), 'data_image': V[sl],
-                 'fields': {k: a.reshape(nI, nX)[sl[0], sl[1]].reshape(-1) for k, a in F.items()}, 'file_header': bytes(fh)}
+                 'fields': {k: a.reshape(nI, nX)[sl[0], sl[1]].reshape(-1) for k, a in F.items()}, 'file_header': bytes(fh), 'version': sp.version}
         else:  # export -> convert
             if nI < 2 or nX < 2:
                 continue          # a single line re-converts as a 2D file: not a composition of 3D writers
@@ -232,6 +244,8 @@ def run_chain(case, ctx):
             t = {'shape': D.shape, 'rate': r2, 'bs': conv.resolve_bs(r2, b2), 'ilines': sp.ilines(), 'xlines': sp.xlines(), 'samples': sp.samples(),
                  'ntraces': sp.ntr, 'data_image': oracles.image(D, r2), 'fields': F2, 'file_header': sp.file_header}
         strata.add('stage:' + st)
+        if 'file' in case:
+            strata.add('legacy-source:%s' % ('padded' if sp.post_021 else 'unpadded'))
         b, sp2 = conform.check(nxt, t, tag='chain-%s:' % st)
         bad += b
         n += 1
@@ -453,7 +467,7 @@ def finalize(tier, cases, results, counters, strata):
     reasons = []
     need = ['writer:3d', 'writer:irregular', 'writer:2d', 'writer:numpy', 'writer:VdsConverter', 'writer:ZgyConverter', 'stage:crop',
             'stage:reblock', 'stage:export', 'detection:heuristic', 'detection:thorough', 'detection:exhaustive', 'detection:strip',
-            'version-space', 'version-strings', 'version-gates', 'gate-writer', 'gate-reader', 'footer4n%512=0', 'narr>=3']
+            'version-space', 'version-strings', 'version-gates', 'gate-writer', 'gate-reader', 'footer4n%512=0', 'narr>=3', 'legacy-source:unpadded', 'legacy-source:padded']
     for s in need:
         if s not in strata:
             reasons.append('required stratum not hit: ' + s)
